@@ -52,6 +52,20 @@ def read_case(cid, rnd):
     return c
 
 
+def toolong_segmented_case(cid, rnd):
+    """An object larger than the destination whose *first fragment* (what the initiate response of a segmented upload
+    carries: mailbox - 16 bytes) fits the destination, or just does not."""
+    read_as = rnd.choice(["arr16", "arr64", "str32", "str128", "u64"])
+    n = DESTS[read_as][1]
+    mbx = rnd.choice([16, 17, 20, 24, max(16, n + 16 - rnd.randint(0, 8)), n + 16, n + 17])
+    size = min(512, max(n + 1, mbx - 15) + rnd.choice([0, 0, 1, 5, rnd.randint(0, 40)]))
+    c = read_case(cid, rnd)
+    c.update(object=rand_obj(rnd, size, read_as.startswith("str")), read_as=read_as, mailbox_size=mbx, mode=rnd.choice(["auto", "segmented"]),
+             seg_sizes=[], inject="none", complete=False)
+    c.pop("write_mailbox_size", None)
+    return c
+
+
 def write_case(cid, rnd):
     n = rnd.choice([1, 2, 3, 4, 4])
     value = [rnd.randint(0, 255) for _ in range(n)]
@@ -170,6 +184,8 @@ def run_c15(sc, q, rnd):
     cases = []
     for i in range(150 if q else 4000):
         cases.append(read_case(f"r{i}", rnd))
+    for i in range(20 if q else 400):
+        cases.append(toolong_segmented_case(f"t{i}", rnd))
     for i in range(40 if q else 800):
         cases.append(write_case(f"w{i}", rnd))
     for i in range(30 if q else 500):
